@@ -22,7 +22,6 @@ package dtlshandshake
 //@ func postHandshake.nextTrafficGeneration
 //@ watch deriveNextApplicationTrafficSecret CipherSuiteTLS13.NewRecordProtection
 //@ requires args: p != nil && current != nil
-//@ requires suite-payload: p.state != nil && p.state.Common != nil ==> isNil(p.state.Common.CipherSuite) || nonNilPayload(p.state.Common.CipherSuite)
 //@ requires state-common: p.state != nil ==> p.state.Common != nil
 //@ ensures epoch-overflow: current.Epoch == 65535 ==> result0 == nil && sameRef(result1, dtlserrors.ErrEpochOverflow)
 //@ ensures error-no-generation: result1 != nil ==> result0 == nil
@@ -149,4 +148,86 @@ package dtlshandshake
 
 //@ func postHandshake.queueRequiredKeyUpdateResponse
 //@ noinline
+//@ end
+
+// UpdateKeys reports success only after the peer acknowledged the update: the only place that may hand nil to a
+// completion of a reliable command is completePostHandshakeFlight (above, after applyACK reported the flight as fully
+// acknowledged). Starting a queued command (first transmission) never completes it, except with the error that
+// stopped it (or the cancellation error of a command that was withdrawn before it started).
+
+// ASSUMPTION (reported): the write callback of an application-data command (in the library always the closure of
+// fsm13.WriteApplicationData, which only calls conn.WritePackets) writes sequence numbers, byte buffers, flight
+// packets and protocol messages - not the post-handshake bookkeeping, the state object's identity or the suite.
+//@ assume-pure postHandshakeCommand.Write writes github.com/pion/dtls/v3/internal/state.Common$LocalSequenceNumber uint64 []uint64 uint8 []uint8 github.com/pion/dtls/v3/internal/flight. github.com/pion/dtls/v3/pkg/ $alloc
+
+// (engine-level typing fact: the negotiated suite is never an interface holding a nil pointer)
+//@ define SUITE_OK(p) (p.state.Common != nil ==> isNil(p.state.Common.CipherSuite) || nonNilPayload(p.state.Common.CipherSuite))
+//@ define CERR() argErr("postHandshakeCompletion.complete!", 1)
+//@ define WITHDRAWN() (retBool("canceledPostHandshakeCommand", 1) && sameRef(CERR(), retErr("canceledPostHandshakeCommand", 0)))
+//@ define STARTFAILED() (called("postHandshake.startPostHandshakeCommand") && sameRef(CERR(), retErr("postHandshake.startPostHandshakeCommand", 0)))
+
+//@ func canceledPostHandshakeCommand
+//@ ensures canceled-is-an-error: result1 ==> !isNil(result0)
+//@ ensures not-canceled-no-error: !result1 ==> isNil(result0)
+//@ end
+
+// Dispatch: a KeyUpdate command is only handed to startKeyUpdate; the only command kind whose start may complete
+// it is application data (writeApplicationData reports the write result, no acknowledgement is involved).
+//@ func postHandshake.startPostHandshakeCommand
+//@ watch postHandshakeCompletion.complete! postHandshake.startKeyUpdate postHandshake.startNewSessionTicket postHandshake.writeApplicationData
+//@ requires args: p != nil && p.state != nil
+//@ requires conn-impl: typeIs(conn, "github.com/pion/dtls/v3.handshakeConn")
+//@ requires suite-payload: SUITE_OK(p)
+//@ ensures key-update-goes-to-startKeyUpdate: command.Kind == commandSendKeyUpdate ==> ncalls("postHandshake.startKeyUpdate") == 1
+//@    && sameRef(result, retErr("postHandshake.startKeyUpdate", 0)) && !called("postHandshake.writeApplicationData") && !called("postHandshake.startNewSessionTicket")
+//@ ensures key-update-command-passed-on: called("postHandshake.startKeyUpdate") ==> command.Kind == commandSendKeyUpdate
+//@    && argAs("postHandshake.startKeyUpdate", 3, command).Completion == command.Completion
+//@    && argAs("postHandshake.startKeyUpdate", 3, command).KeyUpdate.Request == command.KeyUpdate.Request
+//@ ensures only-application-data-completes-at-start: called("postHandshake.writeApplicationData") ==> command.Kind == commandSendApplicationData
+//@ ensures no-own-completion: !called("postHandshakeCompletion.complete!")
+//@ ensures frame: p.state == old(p.state)
+//@ ensures frame-suite: SUITE_OK(p)
+//@ ensures unknown-kind-fails: command.Kind > commandSendApplicationData ==> result != nil
+//@ ensures unimplemented-kinds-fail: command.Kind == commandSendNewConnectionID || command.Kind == commandSendRequestConnectionID ==> sameRef(result, dtlserrors.ErrNotImplemented)
+//@ end
+
+//@ func postHandshake.startNewSessionTicket
+//@ noinline
+//@ end
+
+// First transmission of a KeyUpdate: the flight is registered with the caller's completion and the successor
+// write generation as *pending*; nothing is completed and no key is switched here.
+//@ define KUF() retAs("postHandshake.buildKeyUpdateFlight", 0, p.flights[postHandshakeFlightID{}])
+
+//@ func postHandshake.startKeyUpdate
+//@ watch postHandshakeCompletion.complete Conn.WritePackets postHandshake.buildKeyUpdateFlight postHandshake.nextTrafficGeneration TrafficKeyState.CurrentWrite CommitLocalKeyUpdate TrafficKeyState.Install
+//@ requires args: p != nil && p.state != nil
+//@ requires conn-impl: typeIs(conn, "github.com/pion/dtls/v3.handshakeConn")
+//@ requires suite-payload: SUITE_OK(p)
+//@ ensures transmission-does-not-complete: !called("postHandshakeCompletion.complete")
+//@ ensures keys-not-switched-at-send: !called("CommitLocalKeyUpdate") && !called("TrafficKeyState.Install")
+//@ ensures sends-at-most-once: ncalls("Conn.WritePackets") <= 1
+//@ ensures success-sent: result == nil ==> ncalls("Conn.WritePackets") == 1 && isNil(retErr("Conn.WritePackets", 1))
+//@ ensures success-registers-flight: result == nil ==> KUF() != nil && p.flights[KUF().ID] == KUF()
+//@ ensures flight-carries-completion: result == nil ==> KUF().Completion == command.Completion
+//@ ensures flight-carries-next-write-generation: result == nil ==> KUF().PendingWrite != nil
+//@    && KUF().PendingWrite == retAs("postHandshake.nextTrafficGeneration", 0, TGW())
+//@    && argAs("postHandshake.nextTrafficGeneration", 1, TGW()) == retAs("TrafficKeyState.CurrentWrite", 0, TGW())
+//@ ensures failure-registers-nothing: result != nil ==> len(p.flights) == old(len(p.flights))
+//@ end
+
+//@ func postHandshake.startQueuedPostHandshake
+//@ watch postHandshakeCompletion.complete! postHandshake.startPostHandshakeCommand canceledPostHandshakeCommand
+//@ requires args: p != nil && p.state != nil
+//@ requires conn-impl: typeIs(conn, "github.com/pion/dtls/v3.handshakeConn")
+//@ requires suite-payload: SUITE_OK(p)
+//@ ensures start-never-reports-success: always("postHandshakeCompletion.complete!", "!isNil(CERR())")
+//@ ensures completes-only-failed-or-withdrawn: always("postHandshakeCompletion.complete!", "WITHDRAWN() || STARTFAILED()")
+//@ ensures start-error-stops: result != nil ==> sameRef(result, retErr("postHandshake.startPostHandshakeCommand", 0))
+//@ ensures start-error-reported: result != nil ==> called("postHandshakeCompletion.complete!") && sameRef(CERR(), result)
+//@ loop #1: frame: p.state == old(p.state)
+//@ loop #1: frame-suite: SUITE_OK(p)
+//@ loop #1: start-never-reports-success: always("postHandshakeCompletion.complete!", "!isNil(CERR())")
+//@ loop #1: completes-only-failed-or-withdrawn: always("postHandshakeCompletion.complete!", "WITHDRAWN() || STARTFAILED()")
+//@ loop #1: started-ok: called("postHandshake.startPostHandshakeCommand") ==> isNil(retErr("postHandshake.startPostHandshakeCommand", 0))
 //@ end
